@@ -184,6 +184,9 @@ fn step_programs(tier: mcx::Tier) -> Vec<StepProg> {
         StepProg { name: "call", src: "proc.f push.5 mem_store.3 mem_load.3 drop end begin push.9 mem_store.3 call.f mem_load.3 drop end", stack: deep.clone(), max_len: l },
         StepProg { name: "call_nested", src: "proc.g push.7 mem_store.3 mem_load.3 drop end proc.f push.5 mem_store.3 call.g mem_load.3 drop end begin push.9 mem_store.3 call.f mem_load.3 drop end", stack: vec![1, 2], max_len: tier.pick(8, 13) },
         StepProg { name: "dyncall", src: "proc.f push.5 mem_store.3 mem_load.3 drop end begin push.9 mem_store.3 procref.f dyncall dropw mem_load.3 drop end", stack: vec![1, 2], max_len: tier.pick(8, 13) },
+        // the same word written three times with different values, read in between (the memory view at clock t
+        // must show the LATEST write before t, not the first), also a second word and a word write over an element write
+        StepProg { name: "rewrite", src: "begin push.11 mem_store.3 push.22 mem_store.3 mem_load.3 drop push.1.2.3.4 mem_storew.3 dropw push.33 mem_store.5 mem_load.3 drop end", stack: vec![1, 2], max_len: tier.pick(8, 13) },
         StepProg { name: "locals", src: "proc.f.2 push.4 loc_store.1 loc_load.1 drop end begin exec.f push.1 drop end", stack: vec![3], max_len: l },
         StepProg { name: "loop", src: "begin push.2 dup neq.0 while.true push.1 sub dup neq.0 end drop end", stack: vec![], max_len: l },
     ]
